@@ -3,9 +3,12 @@
 EXTENDS HostTrieRoot
 
 (* keys sharing nibble prefixes, one a prefix of another, the empty key;    *)
-(* values: empty, short, 32 and 33 bytes (hashed in state version 1)        *)
+(* values: empty, short, 32 and 33 bytes (hashed in state version 1), and   *)
+(* 27..31 bytes: with a header byte, zero to three partial-key bytes and a  *)
+(* length byte, leaves whose ENCODING is 31, 32 or 33 bytes, on both sides  *)
+(* of the inline/hash rule for non-root nodes (seed C10e)                   *)
 SKeys == { <<>>, <<16>>, <<16, 0>>, <<18>>, <<18, 1>>, <<18, 2>>, <<31>>, <<32>>, <<18, 83>>, Rep(33, 17) }
-SVals == { <<>>, <<1>>, <<2>>, Rep(32, 7), Rep(33, 9), Rep(40, 3) }
+SVals == { <<>>, <<1>>, <<2>>, Rep(27, 4), Rep(28, 5), Rep(29, 6), Rep(30, 8), Rep(31, 2), Rep(32, 7), Rep(33, 9), Rep(40, 3) }
 SLens == 0..12
 (* long lists: indices cross the one-byte / two-byte compact boundary at 64 *)
 LLens == {63, 64, 65, 70, 130}
